@@ -382,7 +382,7 @@ func runSubKey(c *core.Ctx) {
 func runBuf(c *core.Ctx) {
 	P := c.P
 	serve := P.Method(P.Root, "RouterHandler", "ServeNostr")
-	ctor := P.Root.Func("NewRouterHandler")
+	ctor := P.Func(P.Root, "NewRouterHandler")
 	if serve == nil || ctor == nil {
 		c.NoAnchor(nil, "RouterHandler.ServeNostr / NewRouterHandler")
 		return
